@@ -1542,16 +1542,18 @@ func fsm5(c *Ctx) {
 		for _, c2 := range ir.Calls(parse) {
 			if mv, ok := c2.(*ssa.Call); ok && ir.Static(mv) == ml {
 				for _, e := range ir.EdgesWhere(parse, mv, false) {
-					good := true
-					for r := range ir.ReachVia(e.From, e.To, nil, nil) {
-						if ir.IsReturn(r) {
-							ret := r.Instrs[len(r.Instrs)-1].(*ssa.Return)
-							if cl, isCall := ret.Results[0].(*ssa.Call); !isCall || !(ir.IsStdFunc(ir.Static(cl), "fmt", "Errorf") || ir.IsStdFunc(ir.Static(cl), "errors", "New")) {
-								good = false
-							}
+					good, saw := true, false
+					region := ir.ReachVia(e.From, e.To, nil, nil)
+					for _, rp := range ir.ReturnPoints(parse) {
+						if !region[rp.At] {
+							continue
+						}
+						saw = true
+						if cl, isCall := rp.Results[0].(*ssa.Call); !isCall || !(ir.IsStdFunc(ir.Static(cl), "fmt", "Errorf") || ir.IsStdFunc(ir.Static(cl), "errors", "New")) {
+							good = false
 						}
 					}
-					okFail = good
+					okFail = good && saw
 				}
 			}
 		}
